@@ -11,7 +11,8 @@ export GOFLAGS=-mod=mod GOPROXY=off GOSUMDB=off GOTOOLCHAIN=local
 W=/tmp/verif-seed.$$
 mkdir -p "$dir/eval"
 git -C /repo worktree add -q --detach "$W" HEAD || exit 2
-trap 'git -C /repo worktree remove --force "$W" >/dev/null 2>&1; rm -f /verif/.build/go.$(echo "$W" | md5sum | cut -c1-8).*' EXIT
+H=$(echo "$W" | md5sum | cut -c1-8)
+trap 'git -C /repo worktree remove --force "$W" >/dev/null 2>&1; rm -f /verif/.build/go.$H.* /verif/.build/vrun.$H /verif/.build/vrun-race.$H /verif/.build/build.$H.log; rm -rf "$dir/eval/out"' EXIT
 demo=""; demopkg=""
 [ -f "$dir/demo_test.go" ] && demo="$dir/demo_test.go"
 if [ -n "$demo" ]; then
@@ -46,7 +47,7 @@ if [ -n "$demo" ]; then
   if rundemo with; then echo "demo with patch: PASS (not a demonstration)"; else echo "demo with patch: FAIL (as required)"; fi
 fi
 for id in "$@"; do
-  ( cd /verif && VERIF_REPO="$W" timeout 1800 ./check "$id" quick ) > "$dir/eval/check_$id.log" 2>&1
+  ( cd /verif && VERIF_REPO="$W" VERIF_OUT_DIR="$dir/eval/out" timeout 1800 ./check "$id" quick ) > "$dir/eval/check_$id.log" 2>&1
   rc=$?
   n=$(grep -c '^VIOLATION' "$dir/eval/check_$id.log")
   echo "check $id: exit=$rc violations=$n $(grep -m1 'what:' "$dir/eval/check_$id.log" | cut -c1-160)"
